@@ -298,6 +298,32 @@ func cmdCheck(argv []string) int {
 			}
 		}
 	}
+	// flow obligations (frame back end)
+	var flows []FlowCheck
+	_ = loadJSON(filepath.Join(vd, "flowchecks.json"), &flows)
+	for _, fc := range flows {
+		if fc.Property != id {
+			continue
+		}
+		t0 := time.Now()
+		fr := runFlowCheck(P, fc)
+		name := "flow#" + fc.Name
+		result := "discharged"
+		nObl++
+		if fr.ok {
+			nDis++
+		} else {
+			result = "fails"
+			reason := fr.path
+			if fr.err != "" {
+				reason = fr.err
+			}
+			p := writeReplay(name, map[string]interface{}{"property": id, "obligation": name, "kind": "flow", "function": fc.Func, "what": fc.What, "reason": reason,
+				"note": "a control-flow path of the real function violates the discipline; there is no input-level replay for a path obligation"})
+			viols = append(viols, violation{name, fc.What + ": " + reason, p, false})
+		}
+		all = append(all, EvObl{name, "flow", shortName(fc.Func), "", "frame", result, time.Since(t0).Milliseconds()})
+	}
 	wall := time.Since(start).Seconds()
 	if updateLedger {
 		var names []string
